@@ -567,6 +567,11 @@ def run(ck):
     # (A2) random and threshold-directed
     n_rand = 600 if quick else 10000
     n_thr = 300 if quick else 5000
+    if ck.gen_broken and quick:
+        # the translation tie (tools/py2lean.py on termination_check.py, RB/Proofs/GenC04.lean) does not hold for
+        # the current source: direct the search at the decision thresholds of the termination check
+        n_rand, n_thr = 2400, 3000
+        ck.count('directed-search:termination-check-thresholds')
     for faulty in (False, True):
         cases = ([random_case(rng) for _ in range(n_rand // 2)] + [threshold_case(rng) for _ in range(n_thr // 2)]
                  + [half_rule_case(rng) for _ in range(n_thr // 4)])
